@@ -294,5 +294,52 @@ void harness(void) {
                    stubs=['Handler::OnLinearConExpr (asserts index and term count)', 'ReadLinearExpr(n, handler) (contract proved by C02.NLReader.ReadLinearExpr)'])
 
 
+NLC_ = 'src/nl-reader.cc'
+
+
+def h_filereader_read():
+    """NLFileReader<File>::Read(MemoryBuffer&) - the copy path taken when the file size is a multiple of the page size (mmap would give no
+    terminator): the buffer handed to ReadNLString holds size_ + 1 bytes, every byte read from the file lands inside it, and byte size_ is the
+    NUL terminator the reader relies on.  MemoryBuffer::resize(n) is an allocation of exactly n bytes (its capacity may be larger, never
+    smaller); File::read(buf, count) writes at most count bytes at buf and returns how many (at least 1: the file does not shrink)."""
+    parts = ['#include "mp_shim.h"\nint vp_one;\n', '''
+size_t size_; char *g_buf; size_t g_buf_size;
+char *g_pool; size_t g_pool_size;   /* the allocation: a block of arbitrary size; the request is assumed to be exactly that size (all sizes are covered) */
+static void array_resize(size_t n) { __CPROVER_assume(n == g_pool_size); g_buf = g_pool; g_buf_size = n; }
+static char *array_at(size_t i) { __CPROVER_assert(i < g_buf_size, "the buffer element accessed is inside the size the buffer was given"); return g_buf + i; }
+static size_t file_read(char *p, size_t count) {
+  __CPROVER_assert(count == 0 || (__CPROVER_same_object(p, g_buf) && __CPROVER_POINTER_OFFSET(p) + count <= g_buf_size), "the file is read into the buffer, inside its size");
+  size_t n = nondet_size_t(); __CPROVER_assume(n >= 1 && n <= count); return n; }
+''',
+             Fn(NLC_, r'void mp::internal::NLFileReader<File>::Read\(\s*fmt::internal::MemoryBuffer<char, 1> &array\)', 'void FileReader_Read(void)',
+                contract='__CPROVER_requires(size_ < ((size_t)1 << 31) && g_pool_size >= 1 && g_pool_size <= ((size_t)1 << 31) && __CPROVER_is_fresh(g_pool, g_pool_size)) '
+                         '__CPROVER_ensures(g_buf_size >= size_ + 1 && g_buf[size_] == 0) __CPROVER_assigns(g_buf, g_buf_size, __CPROVER_object_whole(g_pool))',
+                subst=[(r'array\.resize\(', 'array_resize(', 1), (r'file_\.read\(', 'file_read(', 1), (r'&array\[offset\]', 'array_at(offset)', 1), (r'\barray\[size_\]', '*array_at(size_)', 1)],
+                loops={0: '__CPROVER_assigns(offset, __CPROVER_object_whole(g_pool)) __CPROVER_loop_invariant(offset <= size_ && g_buf == g_pool && g_buf_size == g_pool_size) __CPROVER_decreases(size_ - offset)'},
+                label='mp::internal::NLFileReader::Read(MemoryBuffer&)', nmatches=1),
+             'void harness(void) { vp_one = 1; size_ = nondet_size_t(); g_pool_size = nondet_size_t(); FileReader_Read(); VP_REACH("normal return"); }\n']
+    return Harness('C02.NLFileReader.Read.copy', 'C02', parts, enforce='FileReader_Read', loop_contracts=True, expect_loop_obligations=1,
+                   stubs=['fmt::internal::MemoryBuffer (allocation of exactly the requested size)', 'fmt::File::read (writes at most count bytes, returns 1..count)'])
+
+
+def h_filereader_open(page):
+    """NLFileReader<File>::Open: rounded_size_ is size_ rounded up to a multiple of the page size, so the dispatch of Read(filename, ...) uses
+    the mmap path exactly when the mapping has at least one zero byte behind the file's content (rounded_size_ > size_)."""
+    parts = ['#include "mp_shim.h"\nint vp_one;\n', '''
+size_t size_, rounded_size_; size_t g_fsize;
+#define g_page ((size_t)%d)     /* the page size: a constant per harness (SAT does not decide a remainder by a symbolic divisor) */
+static size_t ConvertFileToMmapSize(size_t n, const char *name) { return n; }     /* identity when it does not throw (size fits size_t) */
+static size_t getpagesize_(void) { return g_page; }
+''' % page,
+             Fn(NLC_, r'void mp::internal::NLFileReader<File>::Open\(fmt::CStringRef filename\)', 'void FileReader_Open(const char *filename)',
+                contract='__CPROVER_requires(g_page >= 1 && g_page <= ((size_t)1 << 30) && g_fsize < ((size_t)1 << 46)) '
+                         '__CPROVER_ensures(size_ == g_fsize && rounded_size_ >= size_ && rounded_size_ - size_ < g_page && rounded_size_ % g_page == 0) '
+                         '__CPROVER_ensures((rounded_size_ == size_) == (size_ % g_page == 0)) __CPROVER_assigns(size_, rounded_size_)',
+                subst=[(r'file_ = File\(filename, fmt::File::RDONLY \| fmt::File::BINARY\);', '', 1), (r'file_\.size\(\)', 'g_fsize', 1), (r'fmt::getpagesize\(\)', 'getpagesize_()', 1)],
+                label='mp::internal::NLFileReader::Open', nmatches=1),
+             'void harness(void) { vp_one = 1; g_fsize = nondet_size_t(); FileReader_Open((const char *)0); VP_REACH("normal return"); }\n']
+    return Harness('C02.NLFileReader.Open.page%d' % page, 'C02', parts, enforce='FileReader_Open', stubs=['File open / size, getpagesize (arbitrary values)'], timeout=600)
+
+
 def harnesses():
-    return [h_read()] + [h_suffix(X, k) for X, k in suffix_classes()] + [h_linear_con()]
+    return [h_read()] + [h_suffix(X, k) for X, k in suffix_classes()] + [h_linear_con(), h_filereader_read(), h_filereader_open(4096), h_filereader_open(65536)]
